@@ -226,7 +226,8 @@ impl AsmParser {
                     }
                 };
 
-                let len = if self.tok_end < tok.span.offs() {
+                // `tok_end` is stale (<= start of this statement) if no operand was consumed
+                let len = if self.tok_end <= tok.span.offs() {
                     tok.span.len()
                 } else {
                     self.tok_end - tok.span.offs()
